@@ -209,7 +209,7 @@ def lens(d, r1, r2):
         return math.pi * min(r1, r2) ** 2
     a = math.acos(max(-1.0, min(1.0, (r1 * r1 + d * d - r2 * r2) / (2 * r1 * d))))
     b = math.acos(max(-1.0, min(1.0, (r2 * r2 + d * d - r1 * r1) / (2 * r2 * d))))
-    return r1 * r1 * a + r2 * r2 * b - d * r1 * math.sin(a)
+    return max(0.0, min(r1 * r1 * a + r2 * r2 * b - d * r1 * math.sin(a), math.pi * min(r1, r2) ** 2))
 
 
 def own_cost(areas, names, cs, nets):
